@@ -187,6 +187,32 @@ def apply_op(kind, m, mach, op, others, viol, hist_label):
             mach.sens = False
         elif op == 'renP':
             m.set_parameter_names({K['renP'][0]: K['renP'][1]})
+        elif op == 'renChain':
+            # one dictionary whose second key is the first entry's new name: the
+            # names are replaced simultaneously, so only the first entry applies
+            # (the second key is not a current name)
+            if K['renP'][1] not in m.parameters():
+                m.set_parameter_names({K['renP'][0]: K['renP'][1],
+                                       K['renP'][1]: 'twice renamed'})
+        elif op == 'badAdm':
+            # a valid compartment with an amount variable that does not exist: the
+            # call is refused and leaves the model as it was
+            before_bad = obs_key(observe(m))
+            try:
+                m.set_administration(K['comps'][0], amount_var='no_such_variable',
+                                     direct=mach.adm is None or
+                                     not mach.adm['direct'])
+                viol.append({'sub': 'adm_accepted', 'message': 'set_administration '
+                             'accepted a non-existent amount variable',
+                             'expected': 'ValueError', 'observed': 'accepted'})
+            except ValueError:
+                after_bad = obs_key(observe(m))
+                if obs_diff(after_bad, before_bad):
+                    viol.append({'sub': 'rejected_changed', 'message': 'a refused '
+                                 'set_administration call changed the model (after '
+                                 '%s)' % hist_label, 'expected': strip(before_bad),
+                                 'observed': strip(after_bad),
+                                 'behaviour': 'rejected_changed'})
         elif op == 'renO':
             m.set_output_names({K['renO'][0]: K['renO'][1]})
             cur = mach.outs if mach.outs is not None else \
@@ -621,8 +647,9 @@ def make_red_search(kind, depth, tail=1):
 
 
 def _ops(kind):
-    ops = ['admD', 'admI', 'reg1', 'reg2', 'out1', 'out2', 'out3', 'renP', 'renO',
-           'sensOn', 'sensSub', 'sensOff', 'sim', 'copyC', 'copyO']
+    ops = ['admD', 'admI', 'badAdm', 'reg1', 'reg2', 'out1', 'out2', 'out3', 'renP',
+           'renChain', 'renO', 'sensOn', 'sensSub', 'sensOff', 'sim', 'copyC',
+           'copyO']
     if kind == 'chain2':
         ops.insert(2, 'admD2')
     return ops
